@@ -15,6 +15,9 @@
    ContextRuntime::drain_and_route_output, one iteration  [Route c]: head of [outq]; if its type is routed to ANOTHER context
                                                             t: put it into t's inbox, then (always) onto the output channel.
                                                             mode Block (the code: tx.send().await): not enabled while t is full;
+                                                            [Wait c] then queues c as a waiter of t's inbox and the next
+                                                            message t takes out hands the freed slot to the first waiter
+                                                            (tokio's fair semaphore: a promised slot counts as occupied);
                                                             mode Drop  (try_send, result ignored — the code before the fix
                                                             recorded in known_findings.json): the event is lost when t is full.
                                                             An event routed to c itself is not forwarded.
@@ -48,7 +51,9 @@ Record cstate := { inbox : list msg; outq : list event; consumed : N;
 Record pend := { p_id : N; p_tosend : list nat; p_acks : list (nat * snap) }.
 
 Record state := { cs : nat -> cstate; output : list event; ackq : list (nat * N * snap);
-                  next_id : N; pending : option pend; completed : list (N * list (nat * snap)) }.
+                  next_id : N; pending : option pend; completed : list (N * list (nat * snap));
+                  wq : nat -> list nat;     (* per inbox: contexts blocked in send().await on it, FIFO *)
+                  rs : nat -> list nat }.   (* per inbox: waiting senders that have been given a slot and not used it yet *)
 
 (* ---- routing table and engine ---- *)
 Fixpoint route (p : list stream) (t : N) : option nat :=
@@ -79,24 +84,42 @@ Definition engine (ss : list stream) (e : event) : list event := bfs 10 ss [e].
 
 (* ---- state plumbing ---- *)
 Definition upd {A} (f : nat -> A) (k : nat) (v : A) : nat -> A := fun x => if Nat.eqb x k then v else f x.
+Definition memb (a : nat) (l : list nat) : bool := existsb (Nat.eqb a) l.
 
 Definition cstate0 : cstate := {| inbox := []; outq := []; consumed := 0%N; g_recv := []; g_sent := [] |}.
 Definition init : state :=
-  {| cs := fun _ => cstate0; output := []; ackq := []; next_id := 1%N; pending := None; completed := [] |}.
+  {| cs := fun _ => cstate0; output := []; ackq := []; next_id := 1%N; pending := None; completed := [];
+     wq := fun _ => []; rs := fun _ => [] |}.
 
 Definition set_cs (s : state) (f : nat -> cstate) : state :=
-  {| cs := f; output := output s; ackq := ackq s; next_id := next_id s; pending := pending s; completed := completed s |}.
+  {| cs := f; output := output s; ackq := ackq s; next_id := next_id s; pending := pending s; completed := completed s;
+     wq := wq s; rs := rs s |}.
 Definition push_inbox (st : cstate) (m : msg) : cstate :=
   {| inbox := inbox st ++ [m]; outq := outq st; consumed := consumed st; g_recv := g_recv st; g_sent := g_sent st |}.
-Definition room (cfg : config) (s : state) (t : nat) : bool := Nat.ltb (length (inbox (cs s t))) (cap cfg).
+(* a free slot: the queue and the slots already promised to waiting senders fill less than the capacity *)
+Definition room (cfg : config) (s : state) (t : nat) : bool :=
+  Nat.ltb (length (inbox (cs s t)) + length (rs s t)) (cap cfg).
 Definition snapshot (st : cstate) : snap := {| sn_consumed := consumed st; sn_recv := g_recv st; sn_sent := g_sent st |}.
 
-Inductive label := Ingress (e : event) | Recv (c : nat) | Route (c : nat) | Init | BSend (c : nat) | AckRecv.
+Inductive label := Ingress (e : event) | Recv (c : nat) | Route (c : nat) | Wait (c : nat) | Init | BSend (c : nat) | AckRecv.
 
 Fixpoint remove_nat (c : nat) (l : list nat) : list nat :=
   match l with [] => [] | x :: r => if Nat.eqb x c then r else x :: remove_nat c r end.
 Definition put_ack (c : nat) (sn : snap) (l : list (nat * snap)) : list (nat * snap) :=
   filter (fun x => negb (Nat.eqb (fst x) c)) l ++ [(c, sn)].
+
+(* taking a message out of c's inbox frees a slot; tokio's fair semaphore hands it to the first waiting sender *)
+Definition grant_wq (s : state) (c : nat) : nat -> list nat :=
+  match wq s c with [] => wq s | _ :: rest => upd (wq s) c rest end.
+Definition grant_rs (s : state) (c : nat) : nat -> list nat :=
+  match wq s c with [] => rs s | w :: _ => upd (rs s) c (rs s c ++ [w]) end.
+
+(* where the head of c's engine output goes: another declared context, or nowhere *)
+Definition target_of (cfg : config) (c : nat) (e : event) : option nat :=
+  match route (prog cfg) (e_ty e) with
+  | Some t => if Nat.ltb t (n_ctx cfg) && negb (Nat.eqb t c) then Some t else None
+  | None => None
+  end.
 
 Definition next (cfg : config) (s : state) (l : label) : option state :=
   match l with
@@ -111,12 +134,15 @@ Definition next (cfg : config) (s : state) (l : label) : option state :=
     let st := cs s c in
     match outq st, inbox st with
     | [], MEv src e :: r =>
-      Some (set_cs s (upd (cs s) c {| inbox := r; outq := engine (streams_of (prog cfg) c) e;
-                                      consumed := consumed st + 1; g_recv := g_recv st ++ [(src, e)]; g_sent := g_sent st |}))
+      Some {| cs := upd (cs s) c {| inbox := r; outq := engine (streams_of (prog cfg) c) e;
+                                    consumed := consumed st + 1; g_recv := g_recv st ++ [(src, e)]; g_sent := g_sent st |};
+              output := output s; ackq := ackq s; next_id := next_id s; pending := pending s; completed := completed s;
+              wq := grant_wq s c; rs := grant_rs s c |}
     | [], MBar id :: r =>
       Some {| cs := upd (cs s) c {| inbox := r; outq := []; consumed := consumed st; g_recv := g_recv st; g_sent := g_sent st |};
               output := output s; ackq := ackq s ++ [(c, id, snapshot st)];
-              next_id := next_id s; pending := pending s; completed := completed s |}
+              next_id := next_id s; pending := pending s; completed := completed s;
+              wq := grant_wq s c; rs := grant_rs s c |}
     | _, _ => None
     end
   | Route c =>
@@ -125,30 +151,43 @@ Definition next (cfg : config) (s : state) (l : label) : option state :=
     match outq st with
     | [] => None
     | e :: r =>
-      let local := {| cs := upd (cs s) c {| inbox := inbox st; outq := r; consumed := consumed st; g_recv := g_recv st; g_sent := g_sent st |};
-                      output := output s ++ [e]; ackq := ackq s; next_id := next_id s; pending := pending s; completed := completed s |} in
-      let target := match route (prog cfg) (e_ty e) with
-                    | Some t => if Nat.ltb t (n_ctx cfg) && negb (Nat.eqb t c) then Some t else None
-                    | None => None
-                    end in
-      match target with
-      | None => Some local
+      match target_of cfg c e with
+      | None =>
+        Some {| cs := upd (cs s) c {| inbox := inbox st; outq := r; consumed := consumed st; g_recv := g_recv st; g_sent := g_sent st |};
+                output := output s ++ [e]; ackq := ackq s; next_id := next_id s; pending := pending s; completed := completed s;
+                wq := wq s; rs := rs s |}
       | Some t =>
         let sender := {| inbox := inbox st; outq := r; consumed := consumed st; g_recv := g_recv st; g_sent := g_sent st ++ [(t, e)] |} in
-        let fwd (accepted : bool) :=
+        let fwd (accepted : bool) (rs' : nat -> list nat) :=
           {| cs := let f := upd (cs s) c sender in
                    if accepted then upd f t (push_inbox (f t) (MEv (Some c) e)) else f;
-             output := output s ++ [e]; ackq := ackq s; next_id := next_id s; pending := pending s; completed := completed s |} in
-        if room cfg s t then Some (fwd true)
-        else match mode cfg with Drop => Some (fwd false) | Block => None end
+             output := output s ++ [e]; ackq := ackq s; next_id := next_id s; pending := pending s; completed := completed s;
+             wq := wq s; rs := rs' |} in
+        if memb c (rs s t) then Some (fwd true (upd (rs s) t (remove_nat c (rs s t))))     (* the slot promised earlier *)
+        else if memb c (wq s t) then None                                                  (* still waiting for a slot *)
+        else if room cfg s t then Some (fwd true (rs s))
+        else match mode cfg with Drop => Some (fwd false (rs s)) | Block => None end
       end
+    end
+  | Wait c =>
+    (* send().await on a full inbox: the sender joins the FIFO of waiters of that inbox *)
+    if negb (Nat.ltb c (n_ctx cfg)) then None else
+    match mode cfg, outq (cs s c) with
+    | Block, e :: _ =>
+      match target_of cfg c e with
+      | Some t => if memb c (rs s t) || memb c (wq s t) || room cfg s t then None
+                  else Some {| cs := cs s; output := output s; ackq := ackq s; next_id := next_id s; pending := pending s;
+                               completed := completed s; wq := upd (wq s) t (wq s t ++ [c]); rs := rs s |}
+      | None => None
+      end
+    | _, _ => None
     end
   | Init =>
     match pending s with
     | Some _ => None
     | None => Some {| cs := cs s; output := output s; ackq := ackq s; next_id := next_id s + 1;
                       pending := Some {| p_id := next_id s; p_tosend := seq 0 (n_ctx cfg); p_acks := [] |};
-                      completed := completed s |}
+                      completed := completed s; wq := wq s; rs := rs s |}
     end
   | BSend c =>
     match pending s with
@@ -156,7 +195,8 @@ Definition next (cfg : config) (s : state) (l : label) : option state :=
       if existsb (Nat.eqb c) (p_tosend p) then
         let p' := {| p_id := p_id p; p_tosend := remove_nat c (p_tosend p); p_acks := p_acks p |} in
         Some {| cs := if room cfg s c then upd (cs s) c (push_inbox (cs s c) (MBar (p_id p))) else cs s;
-                output := output s; ackq := ackq s; next_id := next_id s; pending := Some p'; completed := completed s |}
+                output := output s; ackq := ackq s; next_id := next_id s; pending := Some p'; completed := completed s;
+                wq := wq s; rs := rs s |}
       else None
     | None => None
     end
@@ -173,12 +213,15 @@ Definition next (cfg : config) (s : state) (l : label) : option state :=
             let acks := put_ack c sn (p_acks p) in
             if Nat.eqb (length acks) (n_ctx cfg)
             then Some {| cs := cs s; output := output s; ackq := r; next_id := next_id s; pending := None;
-                         completed := completed s ++ [(p_id p, acks)] |}
+                         completed := completed s ++ [(p_id p, acks)]; wq := wq s; rs := rs s |}
             else Some {| cs := cs s; output := output s; ackq := r; next_id := next_id s;
-                         pending := Some {| p_id := p_id p; p_tosend := []; p_acks := acks |}; completed := completed s |}
-          else Some {| cs := cs s; output := output s; ackq := r; next_id := next_id s; pending := pending s; completed := completed s |}
+                         pending := Some {| p_id := p_id p; p_tosend := []; p_acks := acks |}; completed := completed s;
+                         wq := wq s; rs := rs s |}
+          else Some {| cs := cs s; output := output s; ackq := r; next_id := next_id s; pending := pending s; completed := completed s;
+                       wq := wq s; rs := rs s |}
         end
-      | None => Some {| cs := cs s; output := output s; ackq := r; next_id := next_id s; pending := None; completed := completed s |}
+      | None => Some {| cs := cs s; output := output s; ackq := r; next_id := next_id s; pending := None; completed := completed s;
+                        wq := wq s; rs := rs s |}
       end
     end
   end.
@@ -198,7 +241,7 @@ Definition restore (cp : list (nat * snap)) : state :=
                     | Some sn => {| inbox := []; outq := []; consumed := sn_consumed sn; g_recv := sn_recv sn; g_sent := sn_sent sn |}
                     | None => cstate0
                     end;
-     output := []; ackq := []; next_id := 1%N; pending := None; completed := [] |}.
+     output := []; ackq := []; next_id := 1%N; pending := None; completed := []; wq := fun _ => []; rs := fun _ => [] |}.
 
 (* ---- what the properties talk about ---- *)
 (* events context b has consumed that came from context a, in consumption order *)
